@@ -16,12 +16,26 @@
     chunk <budget> <faults>                        -> <tag> <nreq>
     props <strict 0|1> <faults>                    -> ok <items> <nreq> | <tag> <nreq>
     chanauth <hasMethod 0|1> <faults>              -> <tag> <nreq>
+  The SEL / SDR operations (Model/ProgOps.lean) on the scripted device
+  <dev> = <reservation id> <sel records> <sdr records>,  records = `-` | id:hex;id:hex;…
+  answers:  <tag> <value> | <request trace>     (requests as cmd.field.field…, `-` = none)
+    selentry <dev> <res> <rid> <faults>            value: <hex> <next>
+    selentries <dev> <fuel> <faults>               value: <hex>,<hex>,…
+    getclear <dev> <rid> <fuel> <faults>           value: <hex>
+    sdr <dev> <res|-> <rid> <faults>               value: <next> <hex>
+    sdrlist <dev> <fuel> <faults>                  value: <next>:<hex>,…
+    raw <faults>                                   -> ok <cc> 1        (primitive: the code is handed over)
+    cover <op>                                     -> skeleton | primitive | transport | leaf:<model> |
+                                                      composite | asShipped | none
+        how Props/C08.lean's `table_covered` covers entry <op> (the same function the theorem evaluates)
 -/
 import PyIpmi.Base.Proto
 import PyIpmi.Model.Prog
+import PyIpmi.Model.ProgOps
 import PyIpmi.Spec.FaultDevice
 import PyIpmi.Gen.ApiShapes
-open PyIpmi PyIpmi.Proto PyIpmi.Prog PyIpmi.Spec.FaultDevice PyIpmi.Gen.ApiShapes
+import PyIpmi.Lemmas.ProgTable
+open PyIpmi PyIpmi.Proto PyIpmi.Prog PyIpmi.Prog.Ops PyIpmi.Spec.FaultDevice PyIpmi.Gen.ApiShapes
 
 def parseFaults (s : String) : Option (List (Nat × Nat)) :=
   if s == "-" then some []
@@ -71,7 +85,76 @@ def mkRead (off n : Nat) : Req := ⟨2, [0, off % 256, off / 256, n]⟩
 
 def back : List Nat := codes_fruBackoff
 
+def parseRecs (s : String) : Option (List (Nat × List Nat)) :=
+  if s == "-" then some []
+  else (s.splitOn ";").mapM fun r =>
+    match r.splitOn ":" with
+    | [i, h] => do let i ← i.toNat?; let d ← ofHex h; pure (i, d)
+    | _ => none
+
+def parseScript (res sel sdr : String) : Option Script := do
+  let r ← res.toNat?
+  let a ← parseRecs sel
+  let b ← parseRecs sdr
+  pure ⟨a, b, r⟩
+
+def showReq (r : Req) : String := ".".intercalate (toString r.cmd :: r.data.map toString)
+
+def showTrace (t : List Req) : String := if t.isEmpty then "-" else ",".intercalate (t.map showReq)
+
+/-- Outcome, value and request trace of a run under a fault list. -/
+def runShow {α : Type} (p : Prog α) (base : Req → Rsp) (fs : List (Nat × Nat)) (val : α → String) : String :=
+  let x := exec p (faultsDev base (faultMap fs)) 0
+  match x.2.1 with
+  | .ok a => s!"ok {val a} | {showTrace x.2.2}"
+  | e => s!"{resTag e} | {showTrace x.2.2}"
+
+def chunkCs : ChunkCodes := sdr_chunkCodes
+
+def hexList (l : List (List Nat)) : String := if l.isEmpty then "-" else ",".intercalate (l.map toHex)
+
+def handleOps (toks : List String) : Option String :=
+  match toks with
+  | ["selentry", r, a, b, res, rid, fs] => do
+    let s ← parseScript r a b; let res ← res.toNat?; let rid ← rid.toNat?; let f ← parseFaults fs
+    pure (runShow (opGetSelEntry selCfg res rid) s.base f fun v => s!"{toHex v.1} {v.2}")
+  | ["selentries", r, a, b, fuel, fs] => do
+    let s ← parseScript r a b; let fuel ← fuel.toNat?; let f ← parseFaults fs
+    pure (runShow (opSelEntries selCfg sel_first sel_last fuel) s.base f fun v => hexList (v.map (·.1)))
+  | ["getclear", r, a, b, rid, fuel, fs] => do
+    let s ← parseScript r a b; let rid ← rid.toNat?; let fuel ← fuel.toNat?; let f ← parseFaults fs
+    pure (runShow (opGetAndClear selCfg sel_cancel fuel rid) s.base f toHex)
+  | ["sdr", r, a, b, res, rid, fs] => do
+    let s ← parseScript r a b; let rid ← rid.toNat?; let f ← parseFaults fs
+    let resOpt ← (if res == "-" then some none else res.toNat?.map some)
+    pure (runShow (opGetSdr sdrCfg chunkCs sdr_chunkRetry resOpt rid) s.base f fun v => s!"{v.1} {toHex v.2}")
+  | ["sdrlist", r, a, b, fuel, fs] => do
+    let s ← parseScript r a b; let fuel ← fuel.toNat?; let f ← parseFaults fs
+    pure (runShow (opSdrEntries sdrCfg chunkCs sdr_chunkRetry sdr_first sdr_last fuel) s.base f fun v =>
+      if v.isEmpty then "-" else ",".intercalate (v.map fun x => s!"{x.1}:{toHex x.2}"))
+  | ["cover", op] => do
+    let i ← op.toNat?
+    let c ← (covers leafModels residue table)[i]?
+    pure (match c with
+      | some .skeleton => "skeleton"
+      | some .primitive => "primitive"
+      | some .transport => "transport"
+      | some (.leaf m) => s!"leaf:{m}"
+      | some .composite => "composite"
+      | some .asShipped => "asShipped"
+      | none => "none")
+  | ["raw", fs] => do
+    let f ← parseFaults fs
+    let x := exec (sendRaw ⟨1, []⟩) (faultsDev (fun _ => ⟨0, []⟩) (faultMap f)) 0
+    pure (match x.2.1 with
+      | .ok rsp => s!"ok {rsp.cc} {x.2.2.length}"
+      | e => s!"{resTag e} {x.2.2.length}")
+  | _ => none
+
 def handleC08 (line : String) : String :=
+  match handleOps (tokens line) with
+  | some r => r
+  | none =>
   match tokens line with
   | ["ping"] => "pong"
   | ["info"] => toString table.length
